@@ -24,6 +24,7 @@ from ..astutil import (
 from ..cfg import CFG
 from ..core import AnalysisError, Mutant
 from ..exprnorm import contains_expr, summarize
+from ..exprnorm import has_code
 
 EXPLANATION = (
     "Dominance/post-dominance of index updates over line-list mutations in the four TextFile "
@@ -332,7 +333,7 @@ def run(ctx):
                     str_flags.setdefault(b.targets[0].id, set()).update(fl)
     shape_chain = None
     for st in single_part.body:
-        if isinstance(st, ast.If) and "loc.first == loc.last" in ast.unparse(st.test):
+        if isinstance(st, ast.If) and has_code(st.test, "loc.first == loc.last"):
             shape_chain = st
     ctx.need(shape_chain is not None, "shape dispatch of _convert_to_loc_string")
 
@@ -419,7 +420,7 @@ def run(ctx):
     pl = a.func("_parse_locs")
     ctx.ob("R3.strand", GBA, "_parse_locs", "complement -> Strand.REVERSE",
            "complement" in ast.unparse(pl) and "Location.Strand.REVERSE" in ast.unparse(pl)
-           and "loc.strand == Location.Strand.REVERSE" in ast.unparse(wr) and "complement(" in ast.unparse(wr),
+           and has_code(wr, "loc.strand == Location.Strand.REVERSE") and "complement(" in ast.unparse(wr),
            "complement() and the reverse strand must be paired in reader and writer", pl.lineno,
            nontrivial=False)
     # qualifier key/value columns
@@ -537,11 +538,11 @@ def run(ctx):
     ctxt = ast.unparse(cl)
     for t in sorted(trig):
         if t == " ":
-            ok = "seqid.strip()" in ctxt and "len(seqid) == 0" in ctxt
+            ok = has_code(cl, "seqid.strip()") and has_code(cl, "len(seqid) == 0")
         else:
             ok = any(
                 isinstance(st, ast.If) and any(isinstance(b, ast.Raise) for b in st.body)
-                and "seqid[0]" in ast.unparse(st.test)
+                and has_code(st.test, "seqid[0]")
                 and t in [c.value for c in ast.walk(st.test) if isinstance(c, ast.Constant)]
                 or (isinstance(st, ast.If) and any(isinstance(b, ast.Raise) for b in st.body)
                     and "seqid[0] in" in ast.unparse(st.test)
@@ -608,7 +609,7 @@ def run(ctx):
     s2s = fq.func("_score_str_to_scores")
     s2c = fq.func("_scores_to_score_str")
     ctx.ob("R5.offset-sign", FASTQ, "_score_str_to_scores", "scores -= offset / + offset",
-           "scores -= offset" in ast.unparse(s2s) and "+ offset" in ast.unparse(s2c),
+           has_code(s2s, "scores -= offset") and has_code(s2c, "np.asarray(scores) + offset"),
            "reading must subtract and writing add the offset", s2s.lineno)
     # both directions use the same *signed* 8 bit type (Solexa scores are negative down to -5)
     def dtypes(fn):
